@@ -87,4 +87,20 @@ def run_case(c):
         return {"crash": "export modified the tree"}
     if not all(isinstance(x, str) for x in l1 + l2):
         return {"crash": "non-string line"}
+    # identifiers are stable within and across iterations of one exporter:
+    # (a) two live iterations interleaved, (b) the tree grows between two iterations
+    it = iter(ex)
+    head = [next(it) for _ in range(len(l1) // 2)]
+    l3 = list(ex)
+    rest = list(it)
+    if head + rest != l1 or l3 != l1:
+        return {"crash": "interleaved iterations of one exporter differ"}
+    import implutil
+    c["names"].setdefault("2000", "zz")
+    extra = implutil.adv(AnyNode)(lbl=2000, name="zz")
+    root.children = (extra,) + tuple(root.children)
+    l4 = list(ex)
+    missing = [x for x in l1 if x not in l4]
+    if missing:
+        return {"crash": "after the tree grew, a line of the first iteration changed: %r" % (missing[0],)}
     return {"l1": l1, "l2": l2}
